@@ -10,7 +10,7 @@ GLOBAL_TRUSTED = [
 ]
 
 # commits in /repo that add the feature-guarded hooks (filled by hand when a hook commit is made)
-HOOK_COMMITS = []
+HOOK_COMMITS = ["acd1c14 verif hook (bft)", "2f5a42f verif hook (network, concurrency)"]
 
 # reason shown in MANIFEST.not_applicable for properties that are not claimed (default text otherwise)
 NOT_CLAIMED = {}
